@@ -208,11 +208,21 @@ def make_history(lib, r, target, n_ops):
         fr = []
         if rr_.get("owner") == "caller":
             free_c = [c for c in CRV if not crv[c]]
-            if held and not free_c:
+            occ = [c for c in CRV if crv[c]]
+            if held and not free_c and not occ:
                 return
             blk = st["nblk"]
             st["nblk"] += 1
-            if held:
+            if held and occ and (not free_c or r.random() < 0.3):
+                # the capsule argument is intent(OUT): storing a new result into a capsule that still owns an earlier
+                # one finalises (releases) the earlier block on entry (docs/pointers.rst, capsule FINAL procedure)
+                c = r.choice(occ)
+                if crv[c]["pattern"]:
+                    fr = [("arr_put", crv[c]["blk"])]
+                crv[c] = {"blk": blk, "pattern": bool(rr_.get("free_pattern"))}
+                op["crv"] = c
+                op["reuse"] = True
+            elif held:
                 c = r.choice(free_c)
                 crv[c] = {"blk": blk, "pattern": bool(rr_.get("free_pattern"))}
                 op["crv"] = c
@@ -505,7 +515,8 @@ def judge(lib, steps, trace, marks, blocks, outs, conv, res, target):
             what = "crvdel:again"
         if op == "arr":
             r_ = lib["functions"][fidx(lib, s["fn"])]["ret"]
-            what = "arr:%s:%s%s" % (r_["deref"], r_.get("owner", "library"), ":pattern" if r_.get("free_pattern") else "")
+            what = "arr:%s:%s%s%s" % (r_["deref"], r_.get("owner", "library"), ":pattern" if r_.get("free_pattern") else "",
+                                      ":into-occupied-capsule" if s.get("reuse") else "")
         if op == "misc":
             what = "misc:" + s["fn"]
         res["stats"]["steps"] = res["stats"].get("steps", 0) + 1
